@@ -67,6 +67,52 @@ def body_lset(cube, **kw):
         return _run_lset(n, pq, rs, packed=cube.get('packed', False))
 
 
+def _lset_variant():
+    """Same type, field, step and variable names as L_SET, different bodies."""
+    import copy
+    sp = copy.deepcopy(lset())
+    a = sp['assets'][0]
+    a['variables'][0]['stepExpression'] = langs.inter(langs.fld('q'), langs.fld('s'))
+    for s in a['attackSteps']:
+        if s['name'] == 'e_f_q':
+            s['reaches']['stepExpressions'] = [langs.to(langs.fld('s'), 't')]
+        if s['name'] == 'e_c_qs':
+            s['reaches']['stepExpressions'] = [langs.to(langs.collect(langs.fld('s'), langs.fld('q')), 't')]
+    return sp
+
+
+def body_twolang(cube, **kw):
+    """A second language with the same names but other definitions, processed in the same interpreter:
+    nothing resolved for the first language may leak into the second (and back)."""
+    from maltoolbox.attackgraph import AttackGraph
+    n = 2
+    pq, rs = [], []
+    for i in range(n):
+        for j in range(n):
+            if kw['pq%d%d' % (i, j)]:
+                pq.append((i, j))
+            if kw['rs%d%d' % (i, j)]:
+                rs.append((i, j))
+    order = [0, 1, 0] if not kw['swap'] else [1, 0, 1]
+    with notrace(), reclimit():
+        specs = [lset(), _lset_variant()]
+        for which in order:
+            sp = specs[which]
+            lg, lcf = langs.build_lang(sp)
+            m, assets = mb.build_model(lcf, ['N'] * n)
+            rel = langs.Rel(n, ['N'] * n, {'N': None}, {'N': {'v': sp['assets'][0]['variables'][0]['stepExpression']}})
+            for (i, j) in pq:
+                mb.add_link(m, lcf, 'PQ', 'p', [assets[i]], 'q', [assets[j]]); rel.add_link('p', i, 'q', j)
+            for (i, j) in rs:
+                mb.add_link(m, lcf, 'RS', 'r', [assets[i]], 's', [assets[j]]); rel.add_link('r', i, 's', j)
+            g = AttackGraph(lg, m)
+            steps = {s['name']: (s['reaches']['stepExpressions'] if s['reaches'] else []) for s in sp['assets'][0]['attackSteps']}
+            r = mb.check_edges(g, assets, rel, lambda _t: steps)
+            if r:
+                return 'language %s (processed in the order %s): %s' % ('L_SET' if which == 0 else 'variant of L_SET with the same names', order, r)
+    return ''
+
+
 def body_linh(cube, **kw):
     """Edges on the inheritance language: step s redefined (absent / no reaches / -> / +>) at each level."""
     from maltoolbox.attackgraph import AttackGraph
@@ -79,14 +125,14 @@ def body_linh(cube, **kw):
     with notrace(), reclimit():
         spec = langs.L_INH(cs)
         lg, lcf = langs.build_lang(spec)
-        types = ['Am', 'G1', 'G2', 'O']
+        types = ['Am', 'G1', 'G2', 'O', 'G3']
         m, assets = mb.build_model(lcf, types)
         rel = langs.rel_for(spec, types)
         if l0:
             mb.add_link(m, lcf, 'L', 'ps', [assets[0], assets[1]], 'os', [assets[3]])
             rel.add_link('ps', 0, 'os', 3); rel.add_link('ps', 1, 'os', 3)
         if l1:
-            mb.add_link(m, lcf, 'L', 'ps', [assets[2]], 'os', [assets[3]]); rel.add_link('ps', 2, 'os', 3)
+            mb.add_link(m, lcf, 'L', 'ps', [assets[2], assets[4]], 'os', [assets[3]]); rel.add_link('ps', 2, 'os', 3); rel.add_link('ps', 4, 'os', 3)
         if l2:
             mb.add_link(m, lcf, 'L2', 'as2', [assets[2]], 'os2', [assets[3]]); rel.add_link('as2', 2, 'os2', 3)
         g = AttackGraph(lg, m)
@@ -123,6 +169,12 @@ def queries(tier):
         qs.append(mk('lset2', 2, None, False, 900, split=['pq00', 'pq01']))
         qs.append(mk('lset3', 3, 5, False, 1700, split=['pq00', 'pq01', 'pq02', 'pq10']))
         qs.append(mk('lset3p', 3, 5, True, 1700, split=['pq00', 'pq01', 'pq02', 'pq10']))
+    bits2 = ['pq%d%d' % (i, j) for i in range(2) for j in range(2)] + ['rs%d%d' % (i, j) for i in range(2) for j in range(2)]
+    qs.append(Query(name='twolang', body=body_twolang, params=[B(b) for b in bits2] + [B('swap')], split=['swap', 'pq01'],
+                    pre=['%s <= %d' % (' + '.join(bits2), 3 if tier == 'quick' else 8)], timeout=600,
+                    witnesses=[({}, dict({b: False for b in bits2}, pq01=True, rs01=True, swap=False))],
+                    bound='two languages with identical type / field / step / variable names but different variable and step bodies, built and used '
+                          'alternately in one interpreter (A, B, A and B, A, B) on 2 assets with every link matrix%s' % (' of <= 3 links' if tier == 'quick' else '')))
     ps = [I('c0', 0, 2), I('c1', 0, 3), I('c2', 0, 3), I('c3', 0, 3), B('l0'), B('l1'), B('l2')]
     qs.append(Query(name='linh', body=body_linh, params=ps, split=['c0', 'c1'], timeout=600,
                     witnesses=[({}, {'c0': 1, 'c1': 3, 'c2': 3, 'c3': 3, 'l0': True, 'l1': True, 'l2': True})],
